@@ -431,7 +431,7 @@ def main_check(pid, tier):
         full = cover | {c.name for c in select_configs(prop, "quick")}
         thin = int(os.environ.get("VERIF_THOROUGH_THIN", str(prop.get("thorough_thin", 8))))
         jobs = [(c, "enumrc", None, None if (c.name in full and (c.opt != "-O0" or prop.get("full_O0"))) else thin) for c in cfgs]
-        nsh = int(os.environ.get("VERIF_SWEEP_SHARDS", "8"))
+        nsh = int(os.environ.get("VERIF_SWEEP_SHARDS", "16"))
         if prop.get("sweep", True):
             # the 2^32-sized sweeps run on the main rungs of the ladder (which between them execute the arms of every instruction-set level),
             # not on every cover configuration: 18 configurations x 8 shards of 2-10 minutes each took most of an hour for one property
